@@ -114,3 +114,62 @@ func VH_C17_validation_pure() {
 		vAssert("C17.identical-calls-identical-data", len(r1.Assertions) == len(r2.Assertions) && r1.ID == r2.ID)
 	}
 }
+
+// VH_C17_no_shared_writes: none of the operations a configured SP offers writes to the SP object (other than
+// the lazily cached signing context, whose protocol VH_C17_signing_context_race covers) or to package-level
+// state. Together with the race freedom of SigningContext() this gives race freedom of arbitrary mixes of
+// operations on one SP: they share memory only through reads.
+func VH_C17_no_shared_writes() {
+	sp := vhOrchSP(vFlag("skipSignatureValidation"))
+	sp.ServiceProviderSLOURL = vString("slo")
+	sp.ServiceProviderIssuer = vString("spIssuer")
+	sp.IdentityProviderSSOURL = vURL("idpSSO", false)
+	sp.IdentityProviderSLOURL = vURL("idpSLO", false)
+	sp.SignAuthnRequests = vFlag("signAuthnRequests")
+	vRandInstall()
+	before := vConfigSig(sp)
+	vWatch(sp)
+	vGlobalWritesReset()
+	switch vChoice("operation", 12) {
+	case 0:
+		s := vhSSOScenario(1, 3)
+		sp.ValidateEncodedResponse(vEncodeDoc("wire", s.root, 0))
+	case 1:
+		s := vhSSOScenario(1, 3)
+		sp.RetrieveAssertionInfo(vEncodeDoc("wire", s.root, 0))
+	case 2:
+		l := vhLogoutRoot("samlp:LogoutRequest", vChoice("root.sig", 3), "root")
+		sp.ValidateEncodedLogoutRequestPOST(vEncodeDoc("wire", l.root, 0))
+	case 3:
+		l := vhLogoutRoot("samlp:LogoutResponse", vChoice("root.sig", 3), "root")
+		sp.ValidateEncodedLogoutResponsePOST(vEncodeDoc("wire", l.root, 0))
+	case 4:
+		sp.Metadata()
+	case 5:
+		sp.MetadataWithSLO(vI64("hours"))
+	case 6:
+		sp.BuildAuthRequestDocument()
+	case 7:
+		if doc, err := sp.BuildAuthRequestDocumentNoSig(); err == nil {
+			sp.BuildAuthURLRedirect(vQueryString("relay"), doc)
+		}
+	case 8:
+		sp.BuildAuthBodyPost(vString("relay"))
+	case 9:
+		if doc, err := sp.BuildLogoutRequestDocument(vString("nameID"), vString("sessionIndex")); err == nil {
+			sp.BuildLogoutURLRedirect(vQueryString("relay"), doc)
+			sp.BuildLogoutBodyPostFromDocument(vString("relay2"), doc)
+		}
+	case 10:
+		if doc, err := sp.BuildLogoutResponseDocument(vString("status"), vString("reqID")); err == nil {
+			sp.BuildLogoutResponseBodyPostFromDocument(vString("relay"), doc)
+		}
+	case 11:
+		sp.GetSigningCertBytes()
+		sp.GetEncryptionCertBytes()
+	}
+	vReach("done", true)
+	vAssert("C17.no-operation-writes-the-sp-object-except-the-cached-signing-context", vWatchedWritesExcept("signingContext") == 0)
+	vAssert("C17.no-operation-writes-package-level-state", vGlobalWrites() == 0)
+	vAssert("C17.exported-configuration-unchanged", vConfigSig(sp) == before)
+}
